@@ -244,7 +244,7 @@ func (h *Client) spawnCaller(spec ReqSpec) *CCall {
 		req.Header.Add(kv[0], kv[1])
 	}
 	if spec.Stream != nil {
-		call.BodyReader = &ReqBody{Chunks: spec.Stream}
+		call.BodyReader = &ReqBody{Chunks: spec.Stream, EOFWithLast: spec.EOFWithLast, OneByte: spec.OneByte}
 		req.SetBodyStream(call.BodyReader, spec.Declared)
 	} else if spec.Body != nil {
 		req.SetBody(spec.Body)
